@@ -24,8 +24,10 @@ import (
 	"fmt"
 	"os"
 	"regexp"
+	"sort"
 	"strings"
 	"sync"
+	"time"
 	"unicode/utf8"
 
 	"github.com/lmorg/murex/lang/expressions"
@@ -110,6 +112,7 @@ type Finding struct {
 // Walk result.
 type Walk struct {
 	ParseErr error
+	Hung     bool
 	Panic    any
 	Findings []Finding
 	Commands []string // every command name met (recursively)
@@ -151,7 +154,13 @@ func walk(block []rune, w *Walk, depth int) {
 		return
 	}
 	block = types.BlockStripCurlyBrace(block)
-	fns, err := expressions.ParseBlock(block)
+	fns, err, hung := parseGuarded(block)
+	if hung {
+		// C20's subject (known: `(` directly followed by a terminator loops)
+		w.Unsure = append(w.Unsure, "block parser did not return")
+		w.Hung = true
+		return
+	}
 	if err != nil {
 		if depth == 0 {
 			w.ParseErr = err
@@ -163,6 +172,69 @@ func walk(block []rune, w *Walk, depth int) {
 	}
 	for _, f := range *fns {
 		walkFn(f, w, depth)
+	}
+}
+
+// loopShape is C20's known endless loop (`(` directly followed by the end of
+// the text or a token that ends an expression): such text is never handed to
+// the block parser, a looping goroutine cannot be stopped.
+func loopShape(r []rune) bool {
+	at := func(i int) rune {
+		if i < len(r) {
+			return r[i]
+		}
+		return -1
+	}
+	for i, c := range r {
+		if c != '(' {
+			continue
+		}
+		n, n2 := at(i+1), at(i+2)
+		switch {
+		case n == -1, n == '#', n == ';':
+			return true
+		case n == '?' && n2 != '?' && n2 != ':':
+			return true
+		case n == '|' && n2 != '|':
+			return true
+		case (n == '-' || n == '=' || n == '>') && n2 == '>':
+			return true
+		}
+	}
+	return false
+}
+
+// parseGuarded runs expressions.ParseBlock under a watchdog.
+func parseGuarded(block []rune) (fns *[]functions.FunctionT, err error, hung bool) {
+	if loopShape(block) {
+		return nil, nil, true
+	}
+	type res struct {
+		fns *[]functions.FunctionT
+		err error
+		p   any
+	}
+	done := make(chan res, 1)
+	go func() {
+		var r res
+		defer func() {
+			if p := recover(); p != nil {
+				r.p = p
+			}
+			done <- r
+		}()
+		r.fns, r.err = expressions.ParseBlock(append([]rune{}, block...))
+	}()
+	tm := time.NewTimer(8 * time.Second)
+	defer tm.Stop()
+	select {
+	case r := <-done:
+		if r.p != nil {
+			panic(r.p) // recovered by WalkExecuted
+		}
+		return r.fns, r.err, false
+	case <-tm.C:
+		return nil, nil, true
 	}
 }
 
@@ -245,22 +317,203 @@ func Check(line string) (kind, msg string) {
 		return "", "" // tokenizer panics are C20's subject
 	}
 	w := WalkExecuted(v.Executed)
-	if w.Panic != nil || w.ParseErr != nil || len(w.Findings) == 0 {
+	if w.Panic != nil || w.ParseErr != nil || w.Hung || len(w.Findings) == 0 {
 		return "", "" // nothing runs / parser panics are C20's subject
 	}
 	var parts []string
+	kinds := map[string]bool{}
 	for _, f := range w.Findings {
 		parts = append(parts, f.Kind+" "+fmt.Sprintf("%q", f.What))
+		kinds[f.Kind] = true
 	}
-	return w.Findings[0].Kind, fmt.Sprintf("line %q is judged safe (Unsafe=false, command being completed %q), autocomplete would execute %q, in which the real parser finds: %s",
+	var ks []string
+	for k := range kinds {
+		ks = append(ks, k)
+	}
+	sort.Strings(ks)
+	return strings.Join(ks, "+"), fmt.Sprintf("line %q is judged safe (Unsafe=false, command being completed %q), autocomplete would execute %q, in which the real parser finds: %s",
 		line, v.FuncName, v.Executed, strings.Join(parts, ", "))
 }
 
 // ---------------------------------------------------------------------------
 // known findings
 
+const (
+	// The tokenizer looks a command name up only when a blank or a colon ends
+	// it, and does not leave "reading a name" at a flow token: in `exit|num `
+	// the name `exit` is never looked up and `num` is appended to it, so the
+	// safe name `exitnum` is what gets checked (same for ; && || ?: and for a
+	// name ended by `}`).
+	KnownNameAtFlowToken = "C34-name-ended-by-flow-token-not-checked"
+	// The tokenizer has no notion of expression statements: `a = 5` is the
+	// safe command `a` with parameters, the real parser assigns.
+	KnownExprStatement = "C34-expression-statement-judged-by-first-word"
+)
+
+var flowTokensForRepair = []string{"&&", "||", "?:", "->", "=>", "|>", "|", ";", "}", "?"}
+
+// BlankBeforeFlowTokens inserts a blank in front of every flow token (and `}`)
+// that directly follows a non-blank rune other than a backslash. Used only to attribute a failure to
+// KnownNameAtFlowToken: if the verdict of the line repaired this way is
+// "unsafe", the missing look-up at the flow token is what hid the command.
+func BlankBeforeFlowTokens(line string) string {
+	var b strings.Builder
+	for i := 0; i < len(line); {
+		matched := ""
+		for _, ft := range flowTokensForRepair {
+			if strings.HasPrefix(line[i:], ft) {
+				matched = ft
+				break
+			}
+		}
+		if matched == "" {
+			b.WriteByte(line[i])
+			i++
+			continue
+		}
+		if i > 0 && line[i-1] != ' ' && line[i-1] != '\t' && line[i-1] != '\\' {
+			b.WriteByte(' ')
+		}
+		b.WriteString(matched)
+		i += len(matched)
+	}
+	return b.String()
+}
+
+const (
+	// A tab after a command name does not end the name for the tokenizer (only
+	// a blank or a colon does); `reboot\t(a b)` is then looked up as the safe
+	// command `(`.
+	KnownTabAfterName = "C34-tab-does-not-end-command-name"
+	// The tokenizer recognises the append redirection only as ` >>` (after a
+	// blank); the real parser also redirects for `bar>>file`.
+	KnownAppendNoBlank = "C34-append-redirect-without-blank-not-seen"
+	// `?:` (and `??`) between commands is a flow token for the tokenizer; the
+	// block parser reads `?` (the deprecated stderr pipe) followed by a `:cast`
+	// statement, so the word after the next command name is what runs.
+	KnownElvisAtBlockLevel = "C34-elvis-between-commands-is-stderr-pipe-plus-cast"
+	// Runes that have their own branch in the tokenizer and do not start a
+	// name there (& = ? :): a `&` where a command is expected belongs to the command name for the
+	// block parser (`& out x` runs the command `&`, `&a` the command `&a`); the
+	// tokenizer appends it to the name buffer without starting a name, so the
+	// next rune starts the name afresh (`&a` is looked up as `a`, `& out` as
+	// `out`).
+	KnownBareAmpersand = "C34-command-name-starting-with-operator-rune"
+	// `:type cmd`: the block parser reads a cast in front of the command, the
+	// tokenizer ignores the colon and takes the type for the command name.
+	KnownCastPrefix = "C34-cast-prefix-type-taken-for-command"
+	// `(a && reboot now)` where a command is expected: for the tokenizer
+	// everything up to the closing parenthesis is one quoted string, the block
+	// parser ends the `(` statement at the flow token and runs what follows.
+	KnownParenCommandSplit = "C34-paren-command-split-at-flow-token"
+)
+
+// SplitElvis writes `?:` as `? :`, which is how the block parser reads it.
+func SplitElvis(line string) string { return strings.ReplaceAll(line, "?:", " ? :") }
+
+var rxCastPrefix = regexp.MustCompile(`(^|[|;{\n]|&&|->|=>)([ \t]*):[ \t]*[^\s|;{}&]+[ \t]+`)
+
+// DropCastPrefix removes a `:type ` cast written in front of a command, which
+// is where the block parser accepts one.
+func DropCastPrefix(line string) string { return rxCastPrefix.ReplaceAllString(line, "$1$2") }
+
+// DropParens removes every `(` and `)` that is not escaped.
+func DropParens(line string) string {
+	var b strings.Builder
+	for i := 0; i < len(line); i++ {
+		if (line[i] == '(' || line[i] == ')') && (i == 0 || line[i-1] != '\\') {
+			continue
+		}
+		b.WriteByte(line[i])
+	}
+	return b.String()
+}
+
+// BlankBeforeAppend inserts a blank in front of every `>>` that directly
+// follows a non-blank rune.
+func BlankBeforeAppend(line string) string {
+	var b strings.Builder
+	for i := 0; i < len(line); i++ {
+		if strings.HasPrefix(line[i:], ">>") && i > 0 {
+			prev := line[i-1]
+			escapedPrev := i > 1 && line[i-2] == '\\'
+			switch {
+			case prev == ' ', prev == '\t', prev == '>', prev == '\\':
+			case prev == '|' && !escapedPrev: // `|>>` is seen by the tokenizer
+			default:
+				b.WriteByte(' ')
+			}
+		}
+		b.WriteByte(line[i])
+	}
+	return b.String()
+}
+
+// TabsToBlanks replaces every tab by a blank.
+func TabsToBlanks(line string) string { return strings.ReplaceAll(line, "\t", " ") }
+
+// repairs attribute a failure to a tokenizer root cause: the line is rewritten
+// the way that root cause needs (without changing what the real parser would
+// run) and judged again; when the verdict becomes "unsafe", that root cause is
+// what hid the unsafe element.
+var repairs = []struct {
+	id string
+	fn func(string) string
+}{
+	{KnownNameAtFlowToken, BlankBeforeFlowTokens},
+	{KnownAppendNoBlank, BlankBeforeAppend},
+	{KnownTabAfterName, TabsToBlanks},
+	{KnownElvisAtBlockLevel, SplitElvis},
+	{KnownCastPrefix, DropCastPrefix},
+	{KnownParenCommandSplit, DropParens},
+}
+
 // Known maps a failure to a known-finding id ("" = not a listed finding).
 func Known(line, kind string) string {
+	line = Normalise(line)
+	if kind == "" {
+		return ""
+	}
+	flips := func(repaired string) bool {
+		if repaired == line {
+			return false
+		}
+		v := Tokenize(repaired)
+		return v.Panic == nil && v.Unsafe
+	}
+	for _, r := range repairs {
+		if flips(r.fn(line)) {
+			return r.id
+		}
+	}
+	// several root causes in one line: all repairs together
+	all, first := line, ""
+	for _, r := range repairs {
+		if n := r.fn(all); n != all {
+			all = n
+			if first == "" {
+				first = r.id
+			}
+		}
+	}
+	if first != "" && flips(all) {
+		return first
+	}
+	if kind == "assignment" {
+		return KnownExprStatement
+	}
+	if kind == "unsafe-command" {
+		// every unsafe command found has a name that starts with & = ? or :
+		v := Tokenize(line)
+		w := WalkExecuted(v.Executed)
+		only := len(w.Findings) > 0
+		for _, f := range w.Findings {
+			only = only && f.Kind == "unsafe-command" && f.What != "" && strings.ContainsRune("&=?:", rune(f.What[0]))
+		}
+		if only {
+			return KnownBareAmpersand
+		}
+	}
 	return ""
 }
 
